@@ -4,6 +4,9 @@
 (* internal consistency of the tables.                                       *)
 EXTENDS PeerIdRules, TLC, Json
 
+\* FALSE: the documented rule; TRUE: the negative model (first /p2p component)
+CONSTANT FirstP2p
+
 VARIABLES phase, cls
 vars == <<phase, cls>>
 
@@ -11,6 +14,7 @@ Init == phase = "init" /\ cls = [code |-> "none"]
 Next == /\ phase = "init"
         /\ \/ phase' = "derive" /\ cls' \in DeriveClasses
            \/ phase' = "parse" /\ cls' \in ParseClasses
+           \/ phase' = "maddr" /\ cls' \in MaddrClasses
 Spec == Init /\ [][Next]_vars
 
 \* the canonical encoding of every derived id is accepted by the parser (the 42-byte
@@ -26,8 +30,15 @@ TableConsistent ==
     /\ (cls.decl # "eq" \/ cls.vform \in {"nonminimal", "toolong"} => ~ImplParsesBytes(cls))
     /\ (cls.code \in {"otherknown", "unassigned"} => ~ImplParsesBytes(cls))
 
+\* the table over the classes is the last-component rule on the address layout
+MaddrRule ==
+  phase = "maddr" =>
+    ExpectedMaddr(cls) = (IF FirstP2p THEN FirstComponentRule(MaddrLayout(cls)) ELSE LastComponentRule(MaddrLayout(cls)))
+
 Emit == PrintT(<<"B", ToJson(
-          IF phase' = "derive"
+          IF phase' = "maddr"
+            THEN [kind |-> "maddr", c |-> cls', exp |-> ExpectedMaddr(cls'), layout |-> MaddrLayout(cls')]
+          ELSE IF phase' = "derive"
             THEN [kind |-> "derive", c |-> cls', exp |-> Derive(cls')]
             ELSE [kind |-> "parse", c |-> cls',
                   exp |-> [v \in Vias |-> ImplVerdict(cls', v)]])>>)
